@@ -212,7 +212,6 @@ def step (d : DSt) (line : String) : DSt × String :=
           let c := if changes.isEmpty then "-" else ",".intercalate (changes.map fun (n, s) => s!"{n}={s}")
           ({ st := st, prev := cur }, s!"{e} | {c} | live={liveCount st} ## {verdict}")
 
-/-- `C08_IMM_REPAIRED=1`: follow hooks/fix-c08-3.patch (`ImmediateEffect::dispose` stops a running effect) -/
-def main : IO Unit := do
-  let v ← IO.getEnv "C08_IMM_REPAIRED"
-  runDriver step { st := { legacyImm := v != some "1" } }
+/-- the model follows the repaired code (c0cdb98: `ImmediateEffect::dispose` stops a running effect);
+the pre-repair behaviour stays available as `legacyImm := true` for the regression witness only -/
+def main : IO Unit := runDriver step { st := {} }
